@@ -453,3 +453,17 @@ def _has_call2(t):
     if k == 'call':
         return len(t[2]) >= 2 or any(_has_call2(a) for a in t[2])
     return False
+
+
+def fuzz_build(d):
+    """builder for the Atheris target (same decoder as the strategy)"""
+    return _build(d, 5)
+
+
+def extra(tier, seed, shard, nshards, hb, acc):
+    if tier != 'thorough':
+        return
+    from vf.core import fuzz
+    import sys
+    fuzz.campaign(sys.modules[__name__], 'fuzz_build', 300000, seed, shard, hb,
+                  acc)
